@@ -73,6 +73,20 @@ type regSet struct {
 	unary  map[string]bool // full names
 	stream map[string]bool
 	all    []string
+	// registrations that are refused (ill-typed handler under a fresh name, second registration of a name):
+	// their method names are "never registered" and must not resolve to anything
+	refused []*grpc.ServiceDesc
+	ghost   []string
+}
+
+// registerRefused attempts the registrations that must be refused; the panics are the registrar's way of
+// saying no (C15) and are swallowed here.
+func (rs *regSet) registerRefused(reg interface {
+	RegisterService(*grpc.ServiceDesc, interface{})
+}) {
+	for _, d := range rs.refused {
+		tryRegister(reg, d, struct{}{})
+	}
 }
 
 func genRegSet(r *rand.Rand) *regSet {
@@ -102,6 +116,12 @@ func genRegSet(r *rand.Rand) *regSet {
 			rs.all = append(rs.all, "/"+svc+"/"+m)
 		}
 	}
+	ghostSvc := countingDesc(rs.cs, "ghost.Refused", []string{"Get", "Extra"}, []string{"Watch"})
+	ghostSvc.HandlerType = (*ifaceA)(nil) // struct{}{} does not implement it
+	first := rs.descs[0]
+	dup := countingDesc(rs.cs, first.ServiceName, []string{"OnlyInSecondRegistration"}, []string{"StreamOnlyInSecondRegistration"})
+	rs.refused = []*grpc.ServiceDesc{ghostSvc, dup}
+	rs.ghost = []string{"/ghost.Refused/Get", "/ghost.Refused/Extra", "/ghost.Refused/Watch", "/" + first.ServiceName + "/OnlyInSecondRegistration", "/" + first.ServiceName + "/StreamOnlyInSecondRegistration"}
 	return rs
 }
 
@@ -110,6 +130,9 @@ func genRegSet(r *rand.Rand) *regSet {
 // net/http's mux pattern language).
 func genName(r *rand.Rand, rs *regSet, httpSafe bool) string {
 	reg := rs.all[r.Intn(len(rs.all))]
+	if len(rs.ghost) > 0 && r.Intn(8) == 0 {
+		return rs.ghost[r.Intn(len(rs.ghost))]
+	}
 	switch c := r.Intn(16); {
 	case c < 4:
 		return reg
@@ -269,7 +292,7 @@ func genBasePath(r *rand.Rand) string {
 
 func checkC12(e *core.Env) {
 	curEnv = e
-	e.SetRule("random registered sets (1..4 services with near-miss names, 1..3 unary and 0..2 stream methods) x generated method-name strings (registered, prefixes/suffixes/case variants, missing slash, empty, extra segments, swapped service/method, random) x {Invoke, NewStream}; in-process, httpgrpc.Server and HandleServices with random absolute base paths configured identically on both sides; oracle: per-method invocation counters, recover(), status code; distinct = (carrier, name class, call kind)")
+	e.SetRule("random registered sets (1..4 services with near-miss names, 1..3 unary and 0..2 stream methods) x generated method-name strings (registered, prefixes/suffixes/case variants, missing slash, empty, extra segments, swapped service/method, random) x {Invoke, NewStream}, plus the method names of registrations that were refused (ill-typed handler, second registration of a name); in-process, httpgrpc.Server and HandleServices with random absolute base paths configured identically on both sides; oracle: per-method invocation counters, recover(), status code; distinct = (carrier, name class, call kind)")
 	e.Assume("over HTTP, names with empty or dot segments are excluded (URL path normalisation) and base paths avoid blank, %, { and } (net/http mux pattern language)")
 	// in-process
 	e.Cases("inproc", e.N(400, 10000), func(i int, r *rand.Rand) {
@@ -278,6 +301,7 @@ func checkC12(e *core.Env) {
 		for _, d := range rs.descs {
 			ch.RegisterService(d, struct{}{})
 		}
+		rs.registerRefused(ch)
 		for k := 0; k < 20; k++ {
 			name := genName(r, rs, false)
 			asStream := r.Intn(2) == 0
@@ -310,6 +334,7 @@ func checkC12(e *core.Env) {
 			for _, d := range rs.descs {
 				reg.RegisterService(d, struct{}{})
 			}
+			rs.registerRefused(reg)
 			mux := http.NewServeMux()
 			if pan := guard(func() { httpgrpc.HandleServices(mux.HandleFunc, base, reg, nil, nil) }); pan != "" {
 				e.Violate("http-mux/register-panic", fmt.Sprintf("HandleServices with base path %q panicked: %s", base, trunc(pan, 300)), base)
@@ -326,6 +351,7 @@ func checkC12(e *core.Env) {
 				e.Violate("http-server/register-panic", fmt.Sprintf("RegisterService with base path %q panicked: %s", base, trunc(pan, 300)), base)
 				return
 			}
+			rs.registerRefused(s)
 			h = s
 		}
 		c := httpCarrier("http", nil, h, "/", false, false)
